@@ -2,17 +2,17 @@
 # seedverify.sh <Cnn> <sid>: confirm a sub-agent's seeded change in its scratch worktree /tmp/wt/<Cnn>
 # (62 tests pass with the patch; demo exits 1 with, 0 without) and store it under seeded/<sid>/.
 set -u
-P=$1; SID=$2; W=/tmp/wt/$P; D=/verif/seeded/$SID
+P=$1; SID=$2; WT=${WT:-/tmp/wt}; W=$WT/$P; D=/verif/seeded/$SID
 cd $W || exit 2
 git diff --quiet HEAD -- src Cargo.toml && { echo "patch not applied; applying"; git apply seed/patch.diff || exit 2; }
 T=$(CARGO_NET_OFFLINE=true cargo test --workspace --no-fail-fast --offline 2>&1 | grep -E "^test result" | awk '{p+=$4; f+=$6} END{print p" passed "f" failed"}')
 echo "tests with patch: $T"
-bash seed/demo/run.sh > /tmp/wt/$P.with.log 2>&1; W1=$?
+bash seed/demo/run.sh > $WT/$P.with.log 2>&1; W1=$?
 git apply -R seed/patch.diff || exit 2
-bash seed/demo/run.sh > /tmp/wt/$P.without.log 2>&1; W0=$?
+bash seed/demo/run.sh > $WT/$P.without.log 2>&1; W0=$?
 git apply seed/patch.diff
 echo "demo exit with=$W1 without=$W0"
 mkdir -p $D && cp seed/patch.diff $D/ && cp seed/README.md $D/ && rm -rf $D/demo && cp -r seed/demo $D/demo
-find $D/demo -name target -prune -exec rm -rf {} + 2>/dev/null
+find $D/demo \( -name target -o -name out \) -prune -exec rm -rf {} + 2>/dev/null
 du -sh $D | cut -f1
 echo "$T; demo with=$W1 without=$W0" > $D/.confirm
